@@ -26,6 +26,11 @@ def run (s : St) (args : List String) : St × String :=
   match args with
   | ["ep.reset"] => ({}, "ok")
   | ["ep.make", m, r, d, c] =>
+    if s.ep.closed then
+      -- no slot, the scheduled close runs (the harness lets it settle before it looks)
+      let (e, _) := make s.ep ⟨m.toNat!, r.toNat!, d.toNat!, c.toNat!, false⟩
+      ({ s with ep := asyncClose e s.ep.next }, "-1")
+    else
     let (e, i) := make s.ep ⟨m.toNat!, r.toNat!, d.toNat!, c.toNat!, false⟩
     ({ s with ep := e }, toString i)
   | ["ep.remove", id] =>
